@@ -254,7 +254,7 @@ func c37Behaviour(addr string, K int, kind string, rounds int) (tm c37Timing, ru
 func checkC37(c *vk.Ctx) {
 	c.Rule = "(state) for keepalive K in {0,1,2,3,5,7,10,60,65535} x MQTT 3.1.1/5 on an in-memory connection that records every SetDeadline request with the clock at the call: each request made after CONNECT must ask for 1.5 x K s (+0.05/-0.2 s), none with K=0; while a subscriber (K in {1,10,65535}, QoS 0/1) sends nothing and 6 messages are delivered to it, no new deadline request may appear (only packets from the client count as activity). " +
 		"(behaviour, real time, loopback TCP listener, Serve() running) K in {1,2,3}: PINGREQ/PUBLISH packets sent every 1.5K - max(K/4,0.25) s for 3 rounds must not be answered by a close; after the last packet the connection must be closed between 1.5K - max(K/4,0.25) s and 1.5K + K/4 + 0.3 s; K=0: still open after 3 s of silence; silent-receiver: a subscriber that sends nothing after SUBSCRIBE while another connection publishes to it every 0.3K s must be closed in the same window. " +
-		"A harness send more than 80 ms late makes the case inconclusive (retried once). nontrivial = cases in which a close time or a deadline request was observed"
+		"A harness send more than 80 ms late makes the case inconclusive (retried up to three times). nontrivial = cases in which a close time or a deadline request was observed"
 	c.Assumptions = []string{"wall-clock verdicts only with margins >= K/4; jitter guard turns late harness actions into inconclusive cases", "the read deadline set on the connection is what ends an idle connection (net.Conn semantics trusted)"}
 	// state part
 	for _, K := range []uint16{0, 1, 2, 3, 5, 7, 10, 60, 65535} {
@@ -300,7 +300,7 @@ func checkC37(c *vk.Ctx) {
 			time.Sleep(time.Duration(i) * 37 * time.Millisecond) // de-phase the cases
 			var tm c37Timing
 			var rule, detail string
-			for attempt := 0; attempt < 2; attempt++ {
+			for attempt := 0; attempt < 4; attempt++ {
 				tm, rule, detail = c37Behaviour(addr, cs.K, cs.kind, 3)
 				if rule != "inconclusive" {
 					break
